@@ -377,9 +377,17 @@ func runC15(r *R) {
 		r.Note("gun-diagnostics-on")
 		r.Sample(map[string]any{"scenarios": lines, "rows": rows, "instances": inst, "passes": passes, "invocations": invocations, "latency": lat.String(), "faults": fmt.Sprint(faultAt), "diagnostics": diag})
 	}
+	// one run in five: the scheduler stalls tasks at scheduling points for up to 500 ms of simulated time (a descheduled
+	// or paused process), so that instances are in the middle of different steps at the same time; the upper bound of a
+	// pause is then not judged
+	stalls := !longRing && w.Draw(5) == 0
+	if stalls {
+		r.Note("injected-stalls")
+	}
 	res := runHTTPPool(r, httpPoolSpec{
 		Ammo:      map[string]interface{}{"type": "http/scenario", "file": descFile, "limit": invocations},
 		Gun:       gun,
+		Stalls:    stalls,
 		DebugLog:  debugLog,
 		CancelAt:  cancelAt,
 		Instances: inst, Tokens: invocations + 3,
@@ -535,7 +543,7 @@ func runC15(r *R) {
 				// nothing but the configured pause, the answer's way back and the request's way out (and, after a closed
 				// connection, a new connect) lies between two arrivals: a pause that belongs to another entry of the
 				// request list (20 ms and more) does not fit in
-				if slack := 6*lat + 5*time.Millisecond; gap > sc.Steps[j-1].Sleep+slack {
+				if slack := 6*lat + 5*time.Millisecond; !stalls && gap > sc.Steps[j-1].Sleep+slack {
 					r.Fail("pause-too-long", "in %s the step %d (%s) arrived %v after step %d, the configured pause is %v (one-way latency %v; request list %s)", sc.Name, j, in.kinds[j], gap, j-1, sc.Steps[j-1].Sleep, lat, strings.Join(sc.Lines, ", "))
 					return
 				}
